@@ -1939,8 +1939,11 @@ def inline_package(trees: Dict[str, Tuple[ast.Module, bool]], known: Optional[Se
                 break
         from . import restore
         sources = restore.load_sources()
+        for m in pkg.values():
+            m._inline_new_constants()       # before anything is moved between modules
         restore.restore_functions(pkg, sources)
         restore.restore_signatures(pkg, sources)
+        restore.restore_successors(pkg, sources)
         for m in pkg.values():
             m._inline_new_constants()
         for m in pkg.values():
